@@ -4,6 +4,9 @@ CONSTANTS
   Stable = TRUE
   KeySet = {1, 2, 3}
   ValSet = {1, 2}
+  HashVals = {}
+  IntKeys = {}
+  NegKeys = {}
   ShardCounts = {1, 2, 3}
 INVARIANTS TypeOK RouterInRange Equiv OneHome
 PROPERTIES ReadOnly
